@@ -13,7 +13,9 @@ Where kinds come from (repository facts, never names of locals)
     ``TemplatedFileSlice.*``, ``RawFileSlice.source_idx``, ``SourceFix.*``, ``FixPatch.*``,
     ``TemplateElement.template_slice``; the two texts and the two newline tables of
     ``TemplatedFile``; ``working_line_no/working_line_pos`` and the violation's
-    ``line_no/line_pos``;
+    ``line_no/line_pos``; for a receiver whose class is unknown the field *name* decides, but
+    only for names on which every declaring class of the tree agrees (``REVIEWED_SLICE_FIELDS``:
+    ``JinjaTracer.source_idx`` is a rendered-space cursor, so ``source_idx`` has no fallback);
   * ``.start`` / ``.stop`` of a kinded slice keep the kind; ``slice(a, b)`` of equal kinds
     keeps it; ``K + length`` is ``K``; ``K - K`` is a length; ``text.find(..)`` is an offset
     into that text;
@@ -87,15 +89,29 @@ FIELD_KINDS: Dict[Tuple[str, str], Dict[str, object]] = {
     (LEXER, "TemplateElement"): {"template_slice": TPL},
     (ERRORS, "SQLBaseError"): {"line_no": LINE, "line_pos": COL},
 }
-#: field names whose meaning is the same in every class of the tree that declares them
-#: (checked: a class outside REVIEWED_SLICE_CLASSES declaring one is an analysis error);
-#: used when the receiver's class could not be inferred.
-NAME_KINDS = {"source_slice": SRC, "templated_slice": TPL, "source_idx": SRC, "template_slice": TPL}
-REVIEWED_SLICE_CLASSES = {
-    "PositionMarker", "TemplatedFileSlice", "RawFileSlice", "SourceFix", "FixPatch", "TemplateElement",
-    "IntermediateFileSlice",  # templaters/python.py: same meaning (source / templated slice of one file slice)
-    "JinjaTracer", "JinjaAnalyzer",  # slicers/tracer.py: running source offset while slicing the source
+#: Every class of the tree that declares a field with one of these names, with the meaning found
+#: when reading it.  A class that is not listed is an analysis error (read it, then add it).
+#: The by-name fallback for receivers of unknown class (``NAME_KINDS``) is derived from this table
+#: and only covers names on which *all* declaring classes agree.
+REVIEWED_SLICE_FIELDS: Dict[str, Dict[str, str]] = {
+    "PositionMarker": {"source_slice": SRC, "templated_slice": TPL},
+    "TemplatedFileSlice": {"source_slice": SRC, "templated_slice": TPL},
+    "RawFileSlice": {"source_idx": SRC},
+    "SourceFix": {"source_slice": SRC, "templated_slice": TPL},
+    "FixPatch": {"source_slice": SRC, "templated_slice": TPL},
+    "TemplateElement": {"template_slice": TPL},
+    # templaters/python.py: source / rendered slice of one intermediate file slice
+    "IntermediateFileSlice": {"source_slice": SRC, "templated_slice": TPL},
+    # templaters/slicers/tracer.py: despite its name, JinjaTracer.source_idx is the running offset
+    # in the *rendered* output (it becomes TemplatedFileSlice.templated_slice) -> no fallback for it
+    "JinjaTracer": {"source_idx": TPL},
 }
+NAME_KINDS: Dict[str, str] = {}
+for _c, _fs in REVIEWED_SLICE_FIELDS.items():
+    for _n, _k in _fs.items():
+        NAME_KINDS[_n] = _k if NAME_KINDS.get(_n, _k) == _k else "?"
+NAME_KINDS = {n: k for n, k in NAME_KINDS.items() if k != "?"}
+_SLICE_FIELD_NAMES = {n for fs in REVIEWED_SLICE_FIELDS.values() for n in fs}
 #: declared result kinds of methods (the body is still analysed for its own sinks)
 SUMMARIES = {
     (TBASE, "TemplatedFile.get_line_pos_of_char_pos"): Tup([LINE, COL]),
@@ -223,7 +239,7 @@ class SpaceKinds(KindInterp):
             self.field_kinds[(rel, cname)] = dict(fields)
         # the by-name fallback is only sound if the field names mean the same everywhere
         for m in self.repo.iter_modules():
-            if not any(n in m.text for n in NAME_KINDS):
+            if not any(n in m.text for n in _SLICE_FIELD_NAMES):
                 continue
             for q, c in m.classes():
                 names = set()
@@ -234,10 +250,11 @@ class SpaceKinds(KindInterp):
                         for n in ast.walk(item):
                             if isinstance(n, ast.Attribute) and isinstance(n.ctx, ast.Store) and isinstance(n.value, ast.Name) and n.value.id == "self":
                                 names.add(n.attr)
-                if names & set(NAME_KINDS) and c.name not in REVIEWED_SLICE_CLASSES:
+                hit = names & _SLICE_FIELD_NAMES
+                if hit and not hit <= set(REVIEWED_SLICE_FIELDS.get(c.name, {})):
                     raise AnalysisError(
-                        f"RQ-space: class {m.relpath}::{q} declares {sorted(names & set(NAME_KINDS))}; its meaning has not been reviewed "
-                        f"(add it to REVIEWED_SLICE_CLASSES after reading it)"
+                        f"RQ-space: class {m.relpath}::{q} declares {sorted(hit)}; its meaning has not been reviewed "
+                        f"(add it to REVIEWED_SLICE_FIELDS after reading it)"
                     )
 
     def _unique_methods(self) -> Dict[str, Tuple[str, str]]:
